@@ -116,7 +116,8 @@ META.update({
     "C13": {
         "text": "MapOps.tla: positional definitions, fill machines (FillRefines), LenPreserved, FillLaws, ClipLaws "
                 "(idempotent, inside bounds, monotone, nulls stay null) checked by TLC over every series, lag band incl. the "
-                "i32 extremes, fill and bound combination." + ENUM,
+                "i32 extremes, fill and bound combination; FillProof.tla proves that the carried-last-valid closure computes the "
+                "positional definition for a series of ANY length (TLA+ proof system, induction)." + ENUM,
         "note": NOTE,
         "design": "DESIGN.md section 6 C13",
     },
